@@ -105,16 +105,29 @@ pub fn apply_calls(
     w: Option<&W>,
 ) -> FnGraphBuilder<Node> {
     let mut b = FnGraphBuilder::<Node>::new();
-    for node in nodes {
+    let late = calls.iter().filter(|c| matches!(c, BCall::Fn)).count();
+    let upfront = nodes.len().saturating_sub(late);
+    let mut nodes = nodes.into_iter();
+    let mut add = |b: &mut FnGraphBuilder<Node>, node: Node| {
         let want = node.id;
         let id = b.add_fn(node);
         if let Some(w) = w {
             w.borrow_mut()
                 .ev(json!({"ev":"add_fn","want":want,"id":id.index()+1}));
         }
+    };
+    for _ in 0..upfront {
+        if let Some(node) = nodes.next() {
+            add(&mut b, node);
+        }
     }
     for c in calls {
         match c {
+            BCall::Fn => {
+                if let Some(node) = nodes.next() {
+                    add(&mut b, node);
+                }
+            }
             BCall::Edge { kind, a, b: bb } => {
                 let res = if kind == "logic" {
                     b.add_logic_edge(fid(*a), fid(*bb)).is_ok()
@@ -173,6 +186,35 @@ pub fn panic_msg(p: Box<dyn std::any::Any + Send>) -> String {
 /// Builds the graph of the scenario, logging `build`. `None` if `build()` panicked.
 pub fn build_logged(scn: &Scenario, w: &W) -> Option<FnGraph<Node>> {
     let b = apply_calls(nodes_of(scn), &scn.calls, Some(w));
+    if scn.watchdog {
+        // build() on its own thread; given up after BUILD_SECS (the thread is left behind, the harness stops afterwards)
+        let (tx, rx) = std::sync::mpsc::channel();
+        std::thread::spawn(move || {
+            let r = catch_unwind(AssertUnwindSafe(move || b.build()));
+            let _ = tx.send(r);
+        });
+        return match rx.recv_timeout(std::time::Duration::from_secs(BUILD_SECS)) {
+            Ok(Ok(g)) => {
+                let ids: Vec<usize> = g
+                    .iter_insertion_with_indices()
+                    .map(|(i, node)| if i.index() + 1 == node.id { node.id } else { 0 })
+                    .collect();
+                w.borrow_mut().ev(json!({"ev":"build","edges":edges_json(&g),"ranks":ranks_json(&g),
+                    "rank_pops":-1,"ids":ids,"panic":""}));
+                Some(g)
+            }
+            Ok(Err(p)) => {
+                w.borrow_mut().ev(json!({"ev":"build","edges":[],"ranks":[],"rank_pops":-1,
+                    "ids":[],"panic":panic_msg(p)}));
+                None
+            }
+            Err(_) => {
+                w.borrow_mut().ev(json!({"ev":"build_timeout","n":scn.n,"secs":BUILD_SECS}));
+                crate::ABANDON.store(true, std::sync::atomic::Ordering::SeqCst);
+                None
+            }
+        };
+    }
     #[cfg(feature = "hooks")]
     let _ = fn_graph::verif_hooks::drain();
     match catch_unwind(AssertUnwindSafe(move || b.build())) {
@@ -197,6 +239,9 @@ pub fn build_logged(scn: &Scenario, w: &W) -> Option<FnGraph<Node>> {
         }
     }
 }
+
+/// How long `build()` of a watchdog scenario (at most a few hundred functions; normally milliseconds) may take.
+pub const BUILD_SECS: u64 = 30;
 
 pub fn build_quiet(scn: &Scenario) -> Option<FnGraph<Node>> {
     let b = apply_calls(nodes_of(scn), &scn.calls, None);
